@@ -19,7 +19,7 @@ func runFraming(o opts, out *Output) {
 	r := NewRng(o.seed)
 	stats := map[string]int{}
 	var sb strings.Builder
-	sb.WriteString("Definition framing_cases : list (list (list (N * N)) * list (N * list (N * N))) := [\n")
+	sb.WriteString("Definition framing_cases : list (list call * list (N * list (N * N))) := [\n")
 	ncase := 0
 	for c := 0; c < o.n; c++ {
 		g := &OGen{r: r.Fork(), Wide: r.Chance(40), Mono: monoPick(r)}
@@ -52,6 +52,7 @@ func runFraming(o opts, out *Output) {
 		nb := 2 + r.Intn(6)
 		mode := r.Intn(4)
 		var hist, obs []string
+		nreset := 0
 		var sample []map[string]any
 		sidInfo := map[string]string{} // sid -> "type|key"
 		curSid := map[int32]string{}   // type -> current sid
@@ -85,6 +86,8 @@ func runFraming(o opts, out *Output) {
 					_ = pr.p.GetAndResetStats()
 				}()
 				stats["stats_scrapes"]++
+				hist = append(hist, "ResetStats")
+				nreset++
 			}
 			res := pr.produce(data)
 			if res.Class != "ok" {
@@ -142,10 +145,10 @@ func runFraming(o opts, out *Output) {
 				stats["payloads"]++
 				kept = append(kept, keptPayload{b, i, pl, append([]byte(nil), pl.Record...), rec.Table})
 			}
-			if int(bar.BatchId) != len(hist) {
-				out.Violation("C12", "batch-id", fmt.Sprintf("batch id %d, expected %d", bar.BatchId, len(hist)), replay)
+			if int(bar.BatchId) != len(hist)-nreset {
+				out.Violation("C12", "batch-id", fmt.Sprintf("batch id %d, expected %d", bar.BatchId, len(hist)-nreset), replay)
 			}
-			hist = append(hist, "["+strings.Join(ps, "; ")+"]")
+			hist = append(hist, "Batch ["+strings.Join(ps, "; ")+"]")
 			obs = append(obs, fmt.Sprintf("(%d, [%s])", bar.BatchId, strings.Join(os, "; ")))
 			evs := map[string]int{}
 			for _, e := range res.Events {
@@ -175,7 +178,7 @@ func runFraming(o opts, out *Output) {
 			}
 		}
 		func() { defer func() { recover() }(); pr.p.Close() }()
-		if len(hist) == 0 {
+		if len(hist)-nreset == 0 {
 			continue
 		}
 		if ncase > 0 {
@@ -183,15 +186,16 @@ func runFraming(o opts, out *Output) {
 		}
 		fmt.Fprintf(&sb, " ([%s], [%s])", strings.Join(hist, "; "), strings.Join(obs, "; "))
 		ncase++
-		out.AddCase(map[string]any{"options": optName, "mode": []string{"traces", "logs", "metrics", "interleaved"}[mode], "batches": sample}, len(hist) > 1, fmt.Sprintf("options=%s mode=%d", optName, mode))
+		out.AddCase(map[string]any{"options": optName, "mode": []string{"traces", "logs", "metrics", "interleaved"}[mode], "batches": sample}, len(hist)-nreset > 1, fmt.Sprintf("options=%s mode=%d", optName, mode))
 	}
 	sb.WriteString("\n].\n")
 	out.Coq.WriteString(sb.String())
-	out.Coq.WriteString(`(* history = per batch the (payload type, stream key) of every record message; observation = per batch (batch id, [(schema id, type)]) *)
+	out.Coq.WriteString(`(* history = the producer's public calls: per batch the (payload type, stream key) of every record message, and the statistics
+   reads (GetAndResetStats) between them; observation = per batch (batch id, [(schema id, type)]) *)
 Definition pair_eqb (a b : N * N) : bool := N.eqb (fst a) (fst b) && N.eqb (snd a) (snd b).
 Definition out_eqb (a b : N * list (N * N)) : bool := N.eqb (fst a) (fst b) && list_eqb pair_eqb (snd a) (snd b).
-Definition framing_check (c : list (list (N * N)) * list (N * list (N * N))) : bool :=
-  list_eqb out_eqb (snd (prun pinit (fst c))) (snd c).
+Definition framing_check (c : list call * list (N * list (N * N))) : bool :=
+  list_eqb out_eqb (snd (arun false ainit (fst c))) (snd c).
 Definition framing_mismatch := Eval vm_compute in failing framing_check framing_cases.
 Print framing_mismatch.
 `)
